@@ -15,7 +15,7 @@ SPEC = {
 }
 
 TEXT = {
-    "technique": "rapid-generated scenarios with a reference impostor server and an in-flight middlebox + complete enumeration of the 768 fixed response bits + concurrent clients under -race",
+    "technique": "rapid-generated scenarios with a reference impostor server and an in-flight middlebox, responses released with cuts drawn relative to their fields + complete enumeration of the 768 fixed response bits + concurrent clients under -race",
     "engine": "rapid + harness wire (middlebox, virtual deadlines) + reference obfs4 server",
     "level_text": ("Exploration. The real client is run against (a) the genuine real server, (b) the real server with one bit of the "
                    "client's node ID or public key flipped, (c) a reference impostor that knows the whole public bridge line but not the "
